@@ -298,29 +298,97 @@ def key_chain(ctx, rep, rule):
     """as_password = password_to_master . as_master ; as_master = localize then store; canonical shapes of the two digests."""
     facts = ctx.facts
     pre = "<%s as auth::SnmpAuth>::" % DIGEST
+    def root_local(body, op, depth=0):
+        """The local a reference / slice operand ultimately points into (through moves, reborrows, unsizing casts, as_ref)."""
+        pl = op.get("move") or op.get("copy")
+        if pl is None or depth > 12:
+            return None
+        l = pl["l"]
+        if l <= body.arg_count:
+            return ("arg", l) if not [e for e in pl["p"] if e != "deref"] else ("arg", l, tuple(str(e) for e in pl["p"]))
+        defs = []
+        for blk in body.live_blocks():
+            for st_ in blk.stmts:
+                if st_["k"] == "assign" and st_["place"]["l"] == l and not st_["place"]["p"]:
+                    defs.append(st_["rv"])
+            t_ = blk.term
+            if t_ and t_["k"] == "call" and t_["dest"]["l"] == l and not t_["dest"]["p"]:
+                defs.append(("call", t_))
+        if len(defs) != 1:
+            return ("local", l)
+        rv = defs[0]
+        if isinstance(rv, tuple):
+            cp_ = callee_path(rv[1]) or ""
+            if flow.is_transparent(cp_) or cp_.endswith("::deref") or cp_.endswith("::deref_mut") or cp_.endswith("::as_mut_slice") or cp_.endswith("::index") or cp_.endswith("::index_mut"):
+                return root_local(body, rv[1]["args"][0], depth + 1)
+            return ("local", l)
+        if rv["k"] == "use":
+            return root_local(body, rv["op"], depth + 1)
+        if rv["k"] == "cast":
+            return root_local(body, rv["op"], depth + 1)
+        if rv["k"] == "ref" or rv["k"] == "rawptr":
+            pl2 = rv["place"]
+            if pl2["l"] <= body.arg_count and any(isinstance(e, dict) and "field" in e for e in pl2["p"]):
+                return ("argfield", pl2["l"], tuple(e.get("name") for e in pl2["p"] if isinstance(e, dict) and "field" in e))
+            return root_local(body, {"copy": {"l": pl2["l"], "p": [], "ty": None}}, depth + 1) if any(e == "deref" for e in pl2["p"]) else ("local", pl2["l"])
+        return ("local", l)
+
+    def key_stores(body, prov_):
+        """[(rpo position, root of the value stored into self.key)]"""
+        order = {bi: i for i, bi in enumerate(cfg.rpo(body))}
+        out = []
+        for blk in body.calls():
+            cp_ = callee_path(blk.term) or ""
+            if cp_.endswith("clone_from_slice") or cp_.endswith("copy_from_slice"):
+                d_ = prov_.operand(blk.term["args"][0])
+                if fp(d_) == ("arg1", "key"):
+                    out.append((order.get(blk.idx, 0), root_local(body, blk.term["args"][1])))
+        for blk in body.live_blocks():
+            for st_ in blk.stmts:
+                if st_["k"] == "assign" and st_["place"]["l"] == 1 and [e.get("name") for e in st_["place"]["p"] if isinstance(e, dict) and "field" in e] == ["key"] \
+                        and st_["rv"]["k"] == "use":
+                    out.append((order.get(blk.idx, 0), root_local(body, st_["rv"]["op"])))
+        return out
+
+    def localize_then_store(body, prov_, master_ok):
+        """A localize(master, locality=arg3, out) call whose out buffer is what self.key receives afterwards."""
+        order = {bi: i for i, bi in enumerate(cfg.rpo(body))}
+        for x in body.calls():
+            if (callee_path(x.term) or "") != pre + "localize":
+                continue
+            a = [prov_.operand(y) for y in x.term["args"]]
+            if not (a[0] == ("arg", 1) and master_ok(x.term["args"][1], a[1]) and a[2] == ("arg", 3)):
+                continue
+            r = root_local(body, x.term["args"][3])
+            if any(pos > order.get(x.idx, 0) and rr == r for pos, rr in key_stores(body, prov_)):
+                return True
+        return False
+
     b = _body(ctx, rep, rule, pre + "as_password")
     if b is not None:
         p = flow.Prov(b)
-        calls = sorted([x for x in b.calls() if (callee_path(x.term) or "").startswith(pre)], key=lambda x: x.idx)
-        names = [(callee_path(x.term) or "").split("::")[-1] for x in calls]
-        ok = names == ["password_to_master", "as_master"]
-        if ok:
-            a0 = [p.operand(x) for x in calls[0].term["args"]]
-            a1 = [p.operand(x) for x in calls[1].term["args"]]
-            ok = a0[1] == ("arg", 2) and a1[2] == ("arg", 3) and a0[0] == ("arg", 1) and a1[0] == ("arg", 1)
-        rep.check(rule, "DigestAuth::as_password", ok, "password_to_master(password) then as_master(master, locality)", "as_password does %s" % names, b.loc(),
+        order = {bi: i for i, bi in enumerate(cfg.rpo(b))}
+        ptm = [x for x in b.calls() if (callee_path(x.term) or "") == pre + "password_to_master"]
+        ok = False
+        names = [(callee_path(x.term) or "").split("::")[-1] for x in sorted(b.calls(), key=lambda x: order.get(x.idx, 0)) if (callee_path(x.term) or "").startswith(pre)]
+        if len(ptm) == 1:
+            a0 = [p.operand(x) for x in ptm[0].term["args"]]
+            m_root = root_local(b, ptm[0].term["args"][2])
+            if a0[0] == ("arg", 1) and a0[1] == ("arg", 2):
+                # either as_master(&master, locality) or its body spelled out: localize(&master, locality, out); self.key = out
+                for x in b.calls():
+                    if (callee_path(x.term) or "") == pre + "as_master" and order.get(x.idx, 0) > order.get(ptm[0].idx, 0):
+                        a1 = [p.operand(y) for y in x.term["args"]]
+                        if a1[0] == ("arg", 1) and a1[2] == ("arg", 3) and root_local(b, x.term["args"][1]) == m_root:
+                            ok = True
+                if not ok:
+                    ok = localize_then_store(b, p, lambda op_, t_: root_local(b, op_) == m_root)
+        rep.check(rule, "DigestAuth::as_password", ok, "key = localize(password_to_master(password), locality)", "as_password does %s" % names, b.loc(),
                   obligation=True)
     b = _body(ctx, rep, rule, pre + "as_master")
     if b is not None:
         p = flow.Prov(b)
-        loc = [x for x in b.calls() if (callee_path(x.term) or "") == pre + "localize"]
-        st = [x for x in b.calls() if (callee_path(x.term) or "").endswith("clone_from_slice") or (callee_path(x.term) or "").endswith("copy_from_slice")]
-        ok = len(loc) == 1 and len(st) >= 1
-        if ok:
-            a = [p.operand(x) for x in loc[0].term["args"]]
-            ok = a[1] == ("arg", 2) and a[2] == ("arg", 3)
-            d = [p.operand(x) for x in st[0].term["args"]]
-            ok = ok and fp(d[0]) == ("arg1", "key")
+        ok = localize_then_store(b, p, lambda op_, t_: t_ == ("arg", 2))
         rep.check(rule, "DigestAuth::as_master", ok, "key = localize(master, locality)", "as_master does not store localize(key, locality)", b.loc(), obligation=True)
     b = _body(ctx, rep, rule, pre + "localize")
     if b is not None:
@@ -531,7 +599,10 @@ def priv_layout(ctx, rep, rule):
         return None, None
 
     def piece(t):
-        """(base, start, end|None) of a slice obtained by split_at / split_at_mut / constant range indexing."""
+        """(base, start, end|None) of a slice obtained by split_at / split_at_mut / constant range indexing / get(range)?."""
+        t = flow.success_value(t)
+        if t[0] == "some" and (t[1][1] or "").split("::")[-1] in ("get", "get_mut") and len(t[1][2]) == 2 and t[1][2][1][0] == "agg":
+            t = ("call", "::index", t[1][2])
         if t[0] == "f" and t[2] in ("0", "1") and t[1][0] == "call" and ((t[1][1] or "").endswith("::split_at_mut") or (t[1][1] or "").endswith("::split_at")) \
                 and len(t[1][2]) == 2:
             n = _cv(facts, t[1][2][1])
